@@ -505,6 +505,7 @@ def check_instrs(ctx, tabs):
             n = 0
             for ins in build_instances(row, rows_by_cls, ctx.rng, int_values):
                 n += 1
+                shape, ints = operand_shape(ins)      # before encode: riscv IBase.encode overwrites self.offset
                 try:
                     enc = bytes(ins.encode())
                     impl = "ok " + (enc.hex() or "-")
@@ -530,7 +531,6 @@ def check_instrs(ctx, tabs):
                         meta.append((isa, row["name"], impl, str(ins) if enc is not None else "?"))
                 # property (oracle-free): two different operand tuples of one class must not encode to the same bytes
                 if enc is not None:
-                    shape, ints = operand_shape(ins)
                     if ints:
                         groups.setdefault((shape, enc), set()).add(ints)
             for (shape, enc), g in groups.items():
